@@ -13,12 +13,13 @@ import xt
 from xt import PNode
 
 THEOREMS = ["XmlDiffModel.C14_strip_reindent", "XmlDiffModel.C14_flag_table", "XmlDiffModel.C14_nostrip_differs",
-            "XmlDiffModel.C14_stripped_reindent_empty_script", "XmlDiffModel.C14_unstripped_reindent_nonempty_script"]
+            "XmlDiffModel.C14_stripped_reindent_empty_script", "XmlDiffModel.C14_unstripped_reindent_nonempty_script",
+            "XmlDiffModel.C14_xml_formatter_markup_free"]
 PARTIAL = {
     "C14 (xml formatter, real parser)": "proved at model level: blank stripping is blind to re-indentation, the flag table, and the "
     "composition with C03 - the stripped parses of a document and of its re-indented version get the empty script in all three match "
     "modes (C14_stripped_reindent_empty_script; oracle hypotheses of C03), the unstripped ones a non-empty script whenever the root's "
-    "indentation changed (C14_unstripped_reindent_nonempty_script). NOT proved: the XML formatter's markup-free output and that lxml's "
+    "indentation changed (C14_unstripped_reindent_nonempty_script). the model of the XML formatter (engine inside, no text tags) returns the left parse itself for the two stripped parses, without any markup (C14_xml_formatter_markup_free). NOT proved: that lxml's "
     "parser implements the blank-node model (both decided per run by the oracle over the formatter x flag table and the stripBlank "
     "correspondence)",
 }
@@ -140,6 +141,10 @@ def _chunk(seed, lo, hi, extra):
             dopts, cli_mode = [({}, []), ({"fast_match": True}, ["--fast-match"]), ({"best_match": True}, ["--best-match"])][idx % 3]
             desc["diff_options"] = repr(dopts)
             st.count("matching_mode_" + (cli_mode[0][2:] if cli_mode else "default"))
+            # every third case hands diff_texts str inputs that begin with an XML declaration (without an encoding)
+            if idx % 3 == 2 and not a.startswith("<?xml"):
+                a, b = '<?xml version="1.0"?>\n' + a, '<?xml version="1.0"?>\n' + b
+                desc["declaration"] = True
             for fname, norm in rows:
                 if isinstance(norm, tuple):
                     n_built, norm = norm
